@@ -52,7 +52,8 @@ TokOf(ty, id) == CHOOSE x \in Tokens : x.ty = BaseType(ty) /\ x.id = id
 HasTok(ty, id) == \E x \in Tokens : x.ty = BaseType(ty) /\ x.id = id
 
 \* refusal status the scripted callback answers with: depends on the position of the call, so "the last refusal" is observable
-RefusalStatus(callIdx) == IF callIdx % 2 = 1 THEN 401 ELSE 403
+\* (sameErr: the callback answers every refusal with one shared error value of status 403 - a sentinel, as user code often does)
+RefusalStatus(callIdx, sameErr) == IF sameErr THEN 403 ELSE IF callIdx % 2 = 1 THEN 401 ELSE 403
 
 --------------------------------------------------------------------------
 (* machine state *)
@@ -60,7 +61,7 @@ Start == [pc |-> "auth", alt |-> 1, calls |-> 0, k |-> 1, auth |-> <<>>, args |-
 
 Decision(script, n) == IF n <= Len(script) THEN script[n] ELSE TRUE
 
-Step(h, req, script, fail, s) ==
+Step(h, req, script, fail, sameErr, s) ==
     CASE s.pc = "auth" ->
             IF s.alt > Len(h.alts) THEN [s EXCEPT !.pc = IF h.alts = <<>> THEN "parse" ELSE "refused"]
             ELSE LET c  == h.alts[s.alt]
@@ -68,7 +69,7 @@ Step(h, req, script, fail, s) ==
                      ok == Decision(script, n)
                      ev == [scheme |-> c.scheme, scopes |-> c.scopes, ok |-> ok]
                  IN  IF ok THEN [s EXCEPT !.pc = "parse", !.calls = n, !.auth = Append(@, ev)]
-                     ELSE [s EXCEPT !.alt = @ + 1, !.calls = n, !.auth = Append(@, ev), !.lastStatus = RefusalStatus(n)]
+                     ELSE [s EXCEPT !.alt = @ + 1, !.calls = n, !.auth = Append(@, ev), !.lastStatus = RefusalStatus(n, sameErr)]
       [] s.pc = "refused" -> [s EXCEPT !.pc = "done", !.outcome = "refused", !.status = s.lastStatus]
       [] s.pc = "parse" ->
             IF s.k > Len(h.params) THEN [s EXCEPT !.pc = "invoke"]
@@ -85,9 +86,9 @@ Step(h, req, script, fail, s) ==
                       !.status = IF fail THEN 500 ELSE IF h.returnsValue THEN 200 ELSE 204]
       [] OTHER -> s
 
-RECURSIVE RunFrom(_, _, _, _, _)
-RunFrom(h, req, script, fail, s) == IF s.pc = "done" THEN s ELSE RunFrom(h, req, script, fail, Step(h, req, script, fail, s))
-RunOf(h, req, script, fail) == RunFrom(h, req, script, fail, Start)
+RECURSIVE RunFrom(_, _, _, _, _, _)
+RunFrom(h, req, script, fail, sameErr, s) == IF s.pc = "done" THEN s ELSE RunFrom(h, req, script, fail, sameErr, Step(h, req, script, fail, sameErr, s))
+RunOf(h, req, script, fail, sameErr) == RunFrom(h, req, script, fail, sameErr, Start)
 
 --------------------------------------------------------------------------
 (* the step machine as a behaviour, for model checking on a small universe *)
@@ -101,7 +102,7 @@ ReqsFor(hd) == LET choices(p) == IF p.in = "ctx" THEN {ABSENT}
 
 RInit == /\ h \in HandlerChoices /\ script \in ScriptChoices /\ st = Start
          /\ req \in {[toks |-> r] : r \in ReqsFor(h)}
-RNext == st.pc # "done" /\ st' = Step(h, req, script, FALSE, st) /\ UNCHANGED <<h, req, script>>
+RNext == st.pc # "done" /\ st' = Step(h, req, script, FALSE, FALSE, st) /\ UNCHANGED <<h, req, script>>
 RSpec == RInit /\ [][RNext]_rvars /\ WF_rvars(RNext)
 
 Approved(a) == \E i \in DOMAIN a : a[i].ok
@@ -109,7 +110,7 @@ Approved(a) == \E i \in DOMAIN a : a[i].ok
 \*      arguments are parsed only after the gate; when every alternative refuses nothing is invoked and the status is the last refusal's
 C03_Gate    == st.outcome = "invoked" => (h.alts = <<>> \/ Approved(st.auth))
 C03_Order   == st.args # <<>> => (h.alts = <<>> \/ Approved(st.auth))
-C03_Refused == st.outcome = "refused" => (~Approved(st.auth) /\ Len(st.auth) = Len(h.alts) /\ st.status = RefusalStatus(Len(st.auth)) /\ st.args = <<>>)
+C03_Refused == st.outcome = "refused" => (~Approved(st.auth) /\ Len(st.auth) = Len(h.alts) /\ st.status = RefusalStatus(Len(st.auth), FALSE) /\ st.args = <<>>)
 \* alternatives are tried in order, each at most once, stopping at the first approval
 C03_InOrder == \A i \in DOMAIN st.auth : st.auth[i].scheme = h.alts[i].scheme /\ st.auth[i].scopes = h.alts[i].scopes
                                           /\ (i < Len(st.auth) => ~st.auth[i].ok)
